@@ -488,7 +488,7 @@ class StmtMixin:
         hs = self.havoc_loop(st, mod, spec)
         k = z3.Int(fresh_name("k"))
         hs.pc = hs.pc + (k >= 0, k < n)
-        hs.pc = hs.pc + (self.as_bool(inv_at(hs, k)),)
+        hs.pc = hs.pc + self.conjuncts(self.as_bool(inv_at(hs, k)))
         hs.env["__loop_k__"] = k
         hs.env[f"__k{ordinal}__"] = k
         self.assign_target(node.target, elem(k), hs)
@@ -512,12 +512,19 @@ class StmtMixin:
                 outs.append(o)
         # 3. exit: invariant at k = n, then the else clause
         es = self.havoc_loop(st, mod, spec)
-        es.pc = es.pc + (self.as_bool(inv_at(es, n)),)
+        es.pc = es.pc + self.conjuncts(self.as_bool(inv_at(es, n)))
         if node.orelse:
             outs += self.exec_block(node.orelse, es)
         else:
             outs.append(Outcome("normal", es))
         return outs
+
+    @staticmethod
+    def conjuncts(f):
+        """an assumed invariant as one hypothesis per top-level conjunct (finer relevance filtering in the solver portfolio)"""
+        if z3.is_expr(f) and z3.is_and(f) and f.num_args() > 1:
+            return tuple(f.children())
+        return (f,)
 
     def as_bool(self, t):
         if isinstance(t, SV):
@@ -606,7 +613,7 @@ class StmtMixin:
         self.emit("inv.init", spec.label, st, inv_at(st, z3.IntVal(0)))
         hs = self.havoc_loop(st, mod, spec)
         k = z3.Int(fresh_name("k"))
-        hs.pc = hs.pc + (k >= 0, self.as_bool(inv_at(hs, k)))
+        hs.pc = hs.pc + (k >= 0,) + self.conjuncts(self.as_bool(inv_at(hs, k)))
         c = self.ev_truth(node.test, hs)
         self.flush_pending(hs, outs)
         body_st = hs.assume(c)
@@ -631,7 +638,7 @@ class StmtMixin:
                     outs.append(o)
         es = self.havoc_loop(st, mod, spec)
         k2 = z3.Int(fresh_name("k"))
-        es.pc = es.pc + (k2 >= 0, self.as_bool(inv_at(es, k2)))
+        es.pc = es.pc + (k2 >= 0,) + self.conjuncts(self.as_bool(inv_at(es, k2)))
         c2 = self.ev_truth(node.test, es)
         es = es.assume(self.neg(c2) if not isinstance(c2, bool) else (not c2))
         if node.orelse:
